@@ -9,7 +9,7 @@ use fastrace::collector::{EventRecord, Reporter, SpanRecord};
 use fastrace::prelude::*;
 
 use crate::jaeger::{fmt_record, rand_record_realistic};
-use crate::rng::{hex_bytes, Rng};
+use crate::rng::{end_after_hang, guarded, Outcome, hex_bytes, Rng};
 
 // ---------------------------------------------------------------- Datadog
 // the request is recorded BEFORE the response is written: the reporter returns as soon as it has
@@ -77,12 +77,16 @@ pub fn datadog(seed: u64, n: usize, out: &mut dyn std::io::Write) {
             line.push_str(&fmt_record(rec));
         }
         captured.lock().unwrap().clear();
-        let res = std::panic::catch_unwind(std::panic::AssertUnwindSafe(|| {
+        let res = guarded(move || {
             let mut rep = fastrace_datadog::DatadogReporter::new(addr, service, resource, ty);
             rep.report(batch);
-        }));
+        }, 30);
+        if matches!(res, Outcome::Hung) {
+            let _ = writeln!(out, "{} => hang", line);
+            end_after_hang(out);
+        }
         let got = captured.lock().unwrap().clone();
-        let rhs = if res.is_err() {
+        let rhs = if !matches!(res, Outcome::Done) {
             "panic".to_string()
         } else {
             let mut s = format!("{}", got.len());
@@ -134,17 +138,22 @@ pub fn otel(seed: u64, n: usize, out: &mut dyn std::io::Write) {
             line.push_str(&fmt_record(rec));
         }
         let cap = Arc::new(Mutex::new(vec![]));
-        let res = std::panic::catch_unwind(std::panic::AssertUnwindSafe(|| {
+        let cap2 = cap.clone();
+        let res = guarded(move || {
             let mut rep = fastrace_opentelemetry::OpenTelemetryReporter::new(
-                CapExporter(cap.clone()),
+                CapExporter(cap2),
                 opentelemetry::trace::SpanKind::Server,
                 Cow::Owned(opentelemetry_sdk::Resource::builder().build()),
                 opentelemetry::InstrumentationScope::builder("verif").build(),
             );
             rep.report(batch);
-        }));
+        }, 30);
+        if matches!(res, Outcome::Hung) {
+            let _ = writeln!(out, "{} => hang", line);
+            end_after_hang(out);
+        }
         let got = cap.lock().unwrap().clone();
-        let rhs = if res.is_err() {
+        let rhs = if !matches!(res, Outcome::Done) {
             "panic".to_string()
         } else {
             let mut s = format!("{}", got.len());
